@@ -224,3 +224,29 @@ CHECKS["C11"] = dict(
         level_note="Trusts the register tap and the carrier table from the chip manual; instrument TL sets are 3 representatives, not all 128^4.",
     ),
 )
+
+CHECKS["C10"] = dict(
+    harnesses={"pitch": dict(src="c10_pitch.cpp", cfg="fast", kind="rc")},
+    quick=[dict(name="grid", harness="pitch", workers=16, args=["--mode", "grid", "--grid", "quick"]),
+           dict(name="scenarios", harness="pitch", workers=8, args=["--n", "4000"])],
+    thorough=[dict(name="grid", harness="pitch", workers=16, args=["--mode", "grid", "--grid", "full"], timeout=14400),
+              dict(name="scenarios", harness="pitch", workers=16, args=["--n", "20000"], timeout=7200)],
+    rule="grid: chip family {OPN2,OPNA} x note offset {-60,-24,-12,-1,0,1,7,12,24,60} x melodic/percussion (drum key) x all 128 keys x 67 bend values x bend ranges "
+         "(RPN0 MSB 0/1/2/12/24, LSB 0/50/99), plus all 16384 bend values on thinned key sets; every (block,F-number) pair written after a note-on or bend is decoded "
+         "with the datasheet clock and must denote 440*2^((p-69)/12) within one F-number step, with unchanged multiplier registers, for p inside the native range; "
+         "frequency monotone in p. scenarios (rapidcheck): bend fan-out over histories with key-down and pedal-held notes; portamento with overlapping keys (every re-pitch "
+         "between start and end tone, end tone reached). Non-trivial = a bent or block>=1 grid point / a history with a judged bend or glide; grid points distinct by construction.",
+    assumptions=[
+        "RPN 0 LSB: both 1/128-semitone (what the code does) and cents (MIDI RP-018) readings are accepted (p interval)",
+        "points whose expected frequency is >= 6.6 kHz or < 8 Hz are outside the native range and skipped (counted)",
+        "vibrato is off; portamento rate law itself is not asserted, only bounds, direction and arrival",
+    ],
+    min_nontrivial={"quick": 50000, "thorough": 1000000},
+    manifest=dict(
+        engine="bounded enumeration + rapidcheck",
+        technique="grid enumeration of keys x bends x ranges x offsets with an independent frequency decoder on tapped register writes; rapidcheck scenarios for bend fan-out and portamento",
+        level_text="Every frequency register pair written through the public API over the grid is decoded with datasheet constants and compared with equal temperament "
+                   "within one F-number step; the integer-key sub-grid is exhaustive; bend fan-out and glide end points are checked on generated histories.",
+        level_note="Trusts the YM2612/YM2608 F-number formula and master clocks (7670454 / 7987200 Hz) as the reference.",
+    ),
+)
